@@ -298,7 +298,7 @@ claim("C19", "other",
       "cli loads both settings objects from file and issues exactly one Pool.starmap task per file name; none of the 13 modules on the path "
       "writes module-level state. A task's output is therefore a function of its file and of the settings content as loaded, whatever the "
       "chunking, order or worker count (A-POOL). Bounded (labelled, samples schedules): the real entry point on 3 generated miniSEED files "
-      "(different sampling rates and lengths) for 4 / 36 order x --nproc x settings-family schedules, every CSV byte-identical to the "
+      "(different sampling rates and lengths) for 6 / 61 order x --nproc x settings-family schedules (quick / thorough), every CSV byte-identical to the "
       "single-file pipeline run in a fresh interpreter with freshly loaded settings."
       "A third settings family carries an fft_settings dictionary with 70 s windows (the long file needs a longer FFT than the others)."
       "One schedule uses different --distribution_mc and --distribution_fn.",
